@@ -51,7 +51,10 @@ class CrawlRec:
         ov = self.net.ovs[self.x]
         c = self.crawl
         p = {}
-        if self.fut.done():
+        if self.mode == "nodes":
+            # store_value goes on after its find_nodes crawl: that crawl is over when it is `done` with nothing outstanding
+            p["phase"] = "done" if (c.done and not self.outst) else "run"
+        elif self.fut.done():
             p["phase"] = "done"
         elif self.store is not None and ov.request_cache.has("store", self.store["ident"]):
             p["phase"] = "cache"
@@ -73,7 +76,9 @@ class CrawlRec:
         p["nreq"] = self.nreq
         p["result"] = []
         if p["phase"] == "done":
-            if self.fut.cancelled() or self.fut.exception() is not None:
+            if self.mode == "nodes":
+                p["result"] = [self.rk(n) for n in self.crawl.nodes]
+            elif self.fut.cancelled() or self.fut.exception() is not None:
                 p["result"] = [-1]
             elif self.mode == "values":
                 res = self.fut.result()
@@ -108,6 +113,8 @@ class NetRun:
         self.loss = loss
         self.active = {}          # node index -> CrawlRec
         self.busy = {}            # node index -> future of the API call in progress
+        self.queue = {}
+        self.stopping = False
         self.finished = []        # CrawlRec
         self.pairs = {}           # (server, client) -> {"t": last event time (us), "held": spec's view, "events": [...]}
         self.blob_of_data = {}
@@ -131,6 +138,13 @@ class NetRun:
         for q in range(lookups):
             t += self.rng.choice([0.05, 0.2, 1.0, 2.0, 4.0])
             self.loop.call_later(t, self._api, self.rng.randrange(n), "find", self.rng.choice(self.keys), None)
+        # two nodes hammer one key each: far more than 10 requests per 5 s to the nodes closest to it
+        for h in range(2):
+            i = self.rng.randrange(n)
+            th = t + 2.0 + 9.0 * h
+            for q in range(16):
+                self.loop.call_later(th + 0.1 * q, self._api, i, "find", self.keys[h], None)
+        t += 20.0
         # a burst of lookups of one key by many nodes (rate limiter of the nodes close to the key)
         for i in self.rng.sample(range(n), min(n, 10)):
             self.loop.call_later(t + 5.0 + self.rng.random() * 0.5, self._api, i, "find", self.keys[0], None)
@@ -151,7 +165,10 @@ class NetRun:
             self.nodes[i].endpoint.close()
 
     def _api(self, i, what, key, data):
-        if i in self.dead or i in self.busy:
+        if i in self.dead:
+            return
+        if i in self.busy:
+            self.queue.setdefault(i, []).append((what, key, data))     # one crawl at a time per node
             return
         ov = self.ovs[i]
         if what == "store":
@@ -170,6 +187,8 @@ class NetRun:
         self.busy.pop(i, None)
         if not fut.cancelled() and fut.exception() is not None:
             self.stats["api_errors"] += 1
+        if self.queue.get(i) and not self.stopping:
+            self.loop.call_later(0.01, self._api, i, *self.queue[i].pop(0))
 
     # ---- observation helpers
     def held(self, y, x):
@@ -209,7 +228,7 @@ class NetRun:
         h = self.loop.next_timer()
         if h is None or h._when - self.t0 > self.duration:
             if infl:
-                return True if self._deliver_head() else True
+                return self._deliver_head()
             return False
         self.stats["timers"] += 1
         try:
@@ -234,7 +253,11 @@ class NetRun:
         mid = dg.data[22] if len(dg.data) > 22 else -1
         pre = None
         if src is not None and mid in REQ:
-            pre = {"held": self.held(dst, src), "ident": self.decode(self.ovs[dst], self.payload_class(mid), dg.data).identifier}
+            e0 = None
+            for t in self.ovs[dst].routing_tables.values():
+                e0 = e0 or t.get(self.ids[src])
+            pre = {"held": e0 is not None, "obj": id(e0) if e0 is not None else None,
+                   "ident": self.decode(self.ovs[dst], self.payload_class(mid), dg.data).identifier}
         rec = self.active.get(dst)
         resp_event = None
         if rec is not None and mid == 6 and src is not None:
@@ -323,8 +346,8 @@ class NetRun:
                     rec.outst = rec.outst[len(gone):]
                     ev += [{"a": "Expire", "chk": False} for _ in gone]
                     ev[-1]["chk"] = True
-                elif rec.store is not None and not rec.store.get("closed") and not ov.request_cache.has("store", rec.store["ident"]) \
-                        and rec.events[-1]["a"] not in ("StoreAck", "StoreExpire") and not (x in self.active and fresh):
+                elif rec.store is not None and not rec.store.get("closed") \
+                        and not ov.request_cache.has("store", rec.store["ident"]):
                     ev.append({"a": "StoreExpire", "chk": True})
             if ev or (fresh and rec.events and rec.events[-1]["a"] == "Find" and "s" not in rec.events[-1]):
                 proj = rec.project()
@@ -333,13 +356,8 @@ class NetRun:
                 rec.events.extend(ev)
                 if any(e["a"] in ("StoreAck", "StoreExpire") for e in ev) and rec.store is not None:
                     rec.store["closed"] = True
-                if proj["phase"] == "done" or (rec.mode == "nodes" and not rec.outst and not rec.crawl.nodes_todo
-                                               and self._nodes_crawl_over(rec)):
+                if proj["phase"] == "done":
                     self.finish(x, rec)
-
-    def _nodes_crawl_over(self, rec):
-        # store_value continues after its find_nodes crawl: the crawl is over when the crawl object is done and idle
-        return rec.crawl.done and not rec.outst
 
     def finish(self, x, rec):
         rec.done = True
@@ -351,7 +369,7 @@ class NetRun:
     # ---- per pair request log
     def log_query(self, y, x, mid, pre):
         key = (y, x)
-        p = self.pairs.setdefault(key, {"t": None, "held": False, "events": []})
+        p = self.pairs.setdefault(key, {"t": None, "held": False, "obj": None, "events": []})
         now = self.now_us()
         if p["t"] is not None and now > p["t"]:
             p["events"].append({"a": "t", "d": min(now - p["t"], 1_000_000_000)})
@@ -368,9 +386,13 @@ class NetRun:
         if mid == 3 and not answered and held_after:
             node = next(t.get(self.ids[x]) for t in self.ovs[y].routing_tables.values() if t.get(self.ids[x]) is not None)
             counted = bool(node.last_queries) and abs(node.last_queries[-1] - self.loop.time()) < 1e-9
-        if p["held"] and not pre["held"]:
+        entry = None
+        for t in self.ovs[y].routing_tables.values():
+            entry = entry or t.get(self.ids[x])
+        if p["held"] and (not pre["held"] or (p["obj"] is not None and pre["obj"] != p["obj"])):
             p["events"].append({"a": "x"})          # the entry vanished since the last request (dropped as BAD)
             p["held"] = False
+        p["obj"] = id(entry) if entry is not None else None
         if counted and not held_after:
             p["events"].append({"a": "n"})          # answered although the requester does not fit in the table
             self.stats["not_admitted"] += 1
@@ -385,6 +407,7 @@ class NetRun:
         while steps < max_steps and self.step():
             steps += 1
         self.stats["steps"] = steps
+        self.stopping = True
         self.stats["virtual_seconds"] = round(self.loop.time() - self.t0, 1)
         for ov in self.ovs:
             ov.cancel_all_pending_tasks()
